@@ -57,6 +57,7 @@ func VerifHarness_FrameOther(kind uint64) {
 	input := verifBytes("input", inLen, 8)
 	env.db.SetState(callerAddr, common.Hash{1}, common.Hash{2})
 	entryLen := len(env.db.journal)
+	tr.SaveCall(grand, &grand, nil, uint256.NewInt(0), uint256.NewInt(0))
 	tr.SaveCall(grand, &callerAddr, nil, uint256.NewInt(0), uint256.NewInt(0))
 	treeCount, cursor := tr.callTree.count, tr.callTree.current
 
@@ -155,6 +156,9 @@ func VerifHarness_FrameCreate() {
 	entryLen := len(env.db.journal)
 	outer := verifBool("outer")
 	if outer {
+		// two enclosing nodes: the issuing frame has index 1, its parent index 0 (which is also
+		// what an empty cursor reports), so a cursor left one level too high changes the stamp
+		tr.SaveCall(callerAddr, &callerAddr, nil, uint256.NewInt(0), uint256.NewInt(0))
 		tr.SaveCall(callerAddr, &callerAddr, nil, uint256.NewInt(0), uint256.NewInt(0))
 	}
 	expectedIndex, cursor := tr.callTree.count, tr.callTree.current
@@ -270,7 +274,7 @@ func VerifHarness_PrecompileViaFrame(kind, which uint64) {
 	var err error
 	switch kind {
 	case 0:
-		_, left, err = evm.Call(verifCtx, caller, addr, input, gas, new(big.Int))
+		_, left, err = evm.Call(verifCtx, caller, addr, input, gas, verifBig("value"))
 	case 1:
 		_, left, err = evm.CallCode(verifCtx, caller, addr, input, gas, new(big.Int))
 	case 2:
